@@ -157,6 +157,72 @@ def _path(rnd, sh, start, weights, bias):
     return tuple(p)
 
 
+def _draw(rnd, ad, sh, K, stale, cached, snaps, ident, k):
+    """One random call (op, args) inside the generated domain, or (op, None)."""
+    order, hd = list(K['MapOrder']), list(K['Hd'])
+    root = order[0]
+    nodes = order[1:] + hd
+    w = dict(W_SNAP if snaps else W_BUILD)
+    if k < 8:                           # build something first
+        w['SetItem'] *= 2
+        w['Snapshot'] = 0
+    if not sh.layered:
+        w['PushLayer'] = 0
+    op = rnd.choices(list(w), list(w.values()))[0]
+    args = None
+    if op == 'SetItem':
+        for _try in range(12):
+            m = rnd.choice(sorted(sh.sub(root))) if rnd.random() < 0.6 else rnd.choice(order)
+            staged = [n for n in nodes if n in sh.held] if rnd.random() < 0.25 else []
+            node = rnd.choice(staged or [n for n in nodes if n not in sh.held] or nodes)
+            p = _path(rnd, sh, m, (5, 3, 2), 0.5)
+            if sh.can_set(m, p, node, stale):
+                args = (m, p, node)
+                break
+    elif op == 'PushLayer':
+        ms = [m for m in order if len(sh.ly[m]) < K['MaxLayers']]
+        busy = [m for m in ms if any(sh.ly[m])]
+        if ms:
+            args = (rnd.choice(busy if busy and rnd.random() < 0.8 else ms),)
+    elif op == 'Clear':
+        busy = [m for m in order if not sh.blank(m)]
+        args = (rnd.choice(busy if busy and rnd.random() < 0.85 else order),)
+    elif op == 'Snapshot':
+        args = (root if rnd.random() < 0.6 else rnd.choice(order),)
+    elif op in ('Call', 'ClearHandle'):
+        args = (rnd.choice(hd),)
+    elif op == 'ArmFault':
+        hs = [h for h in hd if h not in ad.env.armed and not cached[h]]
+        if hs:
+            args = (rnd.choice(hs),)
+    elif op in ('Get', 'GetItem'):
+        m = root if rnd.random() < 0.6 else rnd.choice(order)
+        args = (m, _path(rnd, sh, m, (3, 4, 3), 0.8))
+    else:                               # reads of / mutation attempts on a snapshot node
+        x = rnd.choice(snaps)
+        pool = NAMES if op != 'SAttr' else ident
+        here = [n for n in sh.names(x) if n in pool]
+        if pool:
+            args = (x, rnd.choice(here) if here and rnd.random() < 0.8 else rnd.choice(pool))
+    return op, args
+
+
+def _follow_ups(rnd, sh, K, op, args, obs):
+    """Short scripted continuations of the call just made: histories a uniform draw rarely completes."""
+    root = K['MapOrder'][0]
+    if op in ('SItem', 'SAttr', 'GetItem', 'Call') and obs['ret'][0] == 'val' and rnd.random() < 0.3:
+        # the same access again after the handle was cleared (and again without a clear)
+        hs = sorted({h for h, _k in obs['ret'][1]} & set(obs['loaded'])) or sorted(h for h, _k in obs['ret'][1])
+        if hs:
+            return [('ClearHandle', (rnd.choice(hs),)), (op, args), (op, args)]
+    if op == 'SetItem' and len(args[1]) == 1 and args[0] != root and args[0] not in sh.held and rnd.random() < 0.5:
+        # a resource put into a staging map is moved into the main tree; the staging map is cleared afterwards
+        m = rnd.choice(sorted(sh.sub(root)))
+        return [('SetItem', (m, _path(rnd, sh, m, (6, 3, 1), 0.3), args[2])), ('Clear', (args[0],))]
+    return []
+
+
+SNAP_OPS = ('SAttr', 'SItem', 'SGet', 'SSetAttr', 'SDelAttr')
 W_BUILD = {'SetItem': 40, 'PushLayer': 6, 'Clear': 4, 'Snapshot': 8, 'Call': 8, 'ClearHandle': 5, 'ArmFault': 3, 'Get': 6,
            'GetItem': 12}
 W_SNAP = {'SetItem': 5, 'PushLayer': 1, 'Clear': 1, 'Snapshot': 3, 'Call': 6, 'ClearHandle': 10, 'ArmFault': 4, 'Get': 3,
@@ -195,8 +261,6 @@ def record(desper, K, seed, n_traces, n_calls):
     rnd = random.Random(seed)
     ad = Recorder(desper, probe=False, depth=K['MaxDepth'])
     order, hd = list(K['MapOrder']), list(K['Hd'])
-    root = order[0]
-    nodes = order[1:] + hd
     traces = []
     for _t in range(n_traces):
         ki, ci = rnd.randrange(len(K['KindSeq'])), rnd.randrange(len(K['ClsSeq']))
@@ -207,51 +271,16 @@ def record(desper, K, seed, n_traces, n_calls):
         stale = set()
         cached = {h: False for h in hd}
         events = []
+        plan = []               # follow-ups of the last call, tried first (dropped when no longer enabled)
         while len(events) < n_calls:
             snaps = sorted(ad.env.snaps)
-            w = dict(W_SNAP if snaps else W_BUILD)
-            if len(events) < 8:                 # build something first
-                w['SetItem'] *= 2
-                w['Snapshot'] = 0
-            if not sh.layered:
-                w['PushLayer'] = 0
-            op = rnd.choices(list(w), list(w.values()))[0]
-            args = None
-            if op == 'SetItem':
-                for _try in range(12):
-                    m = rnd.choice(sorted(sh.sub(root))) if rnd.random() < 0.6 else rnd.choice(order)
-                    staged = [n for n in nodes if n in sh.held] if rnd.random() < 0.25 else []
-                    node = rnd.choice(staged or [n for n in nodes if n not in sh.held] or nodes)
-                    p = _path(rnd, sh, m, (5, 3, 2), 0.5)
-                    if sh.can_set(m, p, node, stale):
-                        args = (m, p, node)
-                        break
-            elif op == 'PushLayer':
-                ms = [m for m in order if len(sh.ly[m]) < K['MaxLayers']]
-                busy = [m for m in ms if any(sh.ly[m])]
-                if ms:
-                    args = (rnd.choice(busy if busy and rnd.random() < 0.8 else ms),)
-            elif op == 'Clear':
-                busy = [m for m in order if not sh.blank(m)]
-                args = (rnd.choice(busy if busy and rnd.random() < 0.85 else order),)
-            elif op == 'Snapshot':
-                args = (root if rnd.random() < 0.6 else rnd.choice(order),)
-            elif op in ('Call', 'ClearHandle'):
-                args = (rnd.choice(hd),)
-            elif op == 'ArmFault':
-                hs = [h for h in hd if h not in ad.env.armed and not cached[h]]
-                if hs:
-                    args = (rnd.choice(hs),)
-            elif op in ('Get', 'GetItem'):
-                m = root if rnd.random() < 0.6 else rnd.choice(order)
-                args = (m, _path(rnd, sh, m, (3, 4, 3), 0.8))
-            elif op in ('SItem', 'SGet', 'SSetAttr', 'SDelAttr', 'SAttr'):
-                x = rnd.choice(snaps)
-                here = sh.names(x)
-                pool = NAMES if op != 'SAttr' else ident
-                here = [n for n in here if n in pool]
-                if pool:
-                    args = (x, rnd.choice(here) if here and rnd.random() < 0.8 else rnd.choice(pool))
+            if plan:
+                op, args = plan.pop(0)
+                if (op == 'SetItem' and not sh.can_set(*args, stale)) or (op in SNAP_OPS and args[0] not in snaps):
+                    plan = []
+                    continue
+            else:
+                op, args = _draw(rnd, ad, sh, K, stale, cached, snaps, ident, len(events))
             if args is None:
                 continue
             places = sh.places(args[2]) if op == 'SetItem' else ()
@@ -264,6 +293,7 @@ def record(desper, K, seed, n_traces, n_calls):
                 stale = {t for t in stale | {(x, n, args[2]) for x, n in places} if sh.place_in(t)}
             elif op == 'Clear':
                 stale = {t for t in stale if t[0] != args[0]}
+            plan = plan or _follow_ups(rnd, sh, K, op, args, obs)
         traces.append({'ki': ki + 1, 'ci': ci + 1, 'fresh': True, 'events': events})
         if len(traces) % 20 == 0:
             import gc
